@@ -208,7 +208,7 @@ def parse_log(text):
     vc = re.findall(r"^(\d+) variables, (\d+) clauses", text, re.M)
     steps = re.search(r"size of program expression: (\d+) steps", text)
     stubs = re.findall(r"^\s*- Stub: (.*)$", text, re.M)
-    funcs = sorted({m.group(1) for m in re.finditer(r" in function (ebml_iterable\S*)", text)})
+    funcs = sorted({m.group(1).strip() for m in re.finditer(r" in function (ebml_iterable[^\n]*)", text)})
     return {
         "checks": checks,
         "raw_failures": len(re.findall(r"^\t - Status: FAILURE", text, re.M)),
@@ -581,7 +581,14 @@ def build_evidence(prop, tier, seed, hs, wit, results, per, violations, inconcl,
         solver += r.get("solver_s") or 0
         symex += r.get("symex_s") or 0
         vt += r.get("verification_time_s") or 0
-        funcs.update(r.get("functions_with_checks", []))
+        fl = r.get("functions_with_checks", [])
+        if r.get("from_cache") and r.get("log") and os.path.exists(r["log"]):
+            try:  # cached entries written by an older parser: take the full names from the log
+                with open(r["log"], errors="replace") as lf:
+                    fl = sorted({m.group(1).strip() for m in re.finditer(r" in function (ebml_iterable[^\n]*)", lf.read())})
+            except OSError:
+                pass
+        funcs.update(fl)
         stubs.update(r.get("stubs_applied", []))
         samples.append({
             "harness": h["name"], "shape": h.get("shape"), "decides": h.get("decides"), "bounds": h.get("bounds"),
@@ -611,7 +618,7 @@ def build_evidence(prop, tier, seed, hs, wit, results, per, violations, inconcl,
             "rule": "one evaluation = one Kani harness (one CBMC run deciding all its assertions for all symbolic inputs); "
                     "non-trivial = verified AND every kani::cover! reachability witness in it SATISFIED",
             "samples": samples,
-            "checker_cmd": "cargo kani --harness <H> --exact -Z stubbing -Z concrete-playback --verbose (RUSTFLAGS=--cfg %s)" % GUARD,
+            "checker_cmd": "cargo kani --harness proofs::<file>::<H> --exact -Z stubbing --target-dir .work/slot-k (RUSTFLAGS=--cfg %s); a failing harness is re-run with -Z concrete-playback --concrete-playback=print and replayed with cargo kani playback" % GUARD,
             "trusted_base": ["Kani 0.68.0 / CBMC 6.11.0 / CaDiCaL", "harness oracles in /verif/harness/src/oracle.rs (natively self-tested)",
                              "stubs applied: %s" % sorted(stubs), "drop-free Copy TSpec instantiations (DESIGN T1)",
                              "written composition arguments (DESIGN T5)"],
